@@ -207,6 +207,9 @@ var c11Gate sync.RWMutex
 
 func c11Exec(fsys *world.World, client int, op c11Op, clock *int64, rec func(c11Rec)) *observe.HangError {
 	var hang *observe.HangError
+	// a decoder that ends its stream with a zero-length write (parallelgzip) keeps even a
+	// drained handle waiting: exact-length reads are un-gated only without compression
+	plainPipeline := fsys.Cfg.Compression == ""
 	gated := guard("F-11")
 	if gated && op.Kind == "peek" {
 		c11Gate.Lock()
@@ -290,7 +293,7 @@ func c11Exec(fsys *world.World, client int, op c11Op, clock *int64, rec func(c11
 				// one Read call with a buffer larger than any generated content: the stream is
 				// consumed to its end inside the call (finding F-11)
 				buf := make([]byte, 64*1024)
-				if op.Kind == "getx" {
+				if op.Kind == "getx" && (plainPipeline || !guard("F-11")) {
 					// ... or with a buffer of exactly the content's length: every byte is taken in
 					// the one call, the end of the stream is not seen (own files only: their
 					// length cannot change between Stat and Read)
